@@ -48,9 +48,12 @@ def run_property(prop, tier, repo_root, seed, open_findings):
         if c.options.get('axiom'):
             functions.append({'name': key, 'tier': 'assumed (abstraction boundary)', 'obligations': 0})
             continue
+        tf = time.time()
         r = calls.verify_function(eng, key, c)
         functions.append({'name': key, 'sha256': r.source_hash, 'tier': 'P' if r.status == 'ok' else 'undecided',
-                          'paths': r.paths, 'obligations': len(r.obligations), 'reason': r.reason})
+                          'paths': r.paths, 'obligations': len(r.obligations), 'reason': r.reason,
+                          'contract': 'frame-only' if c.options.get('frames') else 'functional',
+                          'vcgen_s': round(time.time() - tf, 1)})
         if r.status != 'ok':
             undecided.append({'name': key, 'reason': 'outside the verified subset: ' + r.reason})
             continue
